@@ -18,6 +18,13 @@ static inline struct epit epmap_lower_bound(struct epmap *m, ep_t ep)
   if (!it.end && it.key == G_ep) __CPROVER_assume(m->has_G && it.val == m->val_G);
   return it;
 }
+static inline struct epit epmap_upper_bound(struct epmap *m, ep_t ep)
+{
+  struct epit it = nondet_epit();
+  __CPROVER_assume(BOOL_OK(it.end) && (it.end || it.key > ep));
+  if (!it.end && it.key == G_ep) __CPROVER_assume(m->has_G && it.val == m->val_G);
+  return it;
+}
 static inline struct epit epmap_find(struct epmap *m, ep_t ep)
 {
   struct epit it = nondet_epit();
@@ -94,6 +101,7 @@ static inline struct channel *make_channel(void)
   g_new_channel_calls++; return c;
 }
 #define NET_GHOST g_cfgroute_calls, g_cfgroute_src, g_cfgroute_dst, g_cfgroute_result, g_inroute_sock, g_inroute_sock2, g_inroute_calls, g_outroute_calls, g_listen_q_calls, g_listen_q_sock, g_nfwd_count, g_nfwd_last, g_nfwd_vis0_seen, g_nfwd_vis1_seen, g_nfwd_vis0_left
+extern bool g_scan_exhausted; extern ep_t g_final_ep;
 #define MAP_GHOST g_map_inserts, g_map_erases
 #define SIMNET_FRESH(self) (__CPROVER_is_fresh(self, sizeof(*self)) && EPMAP_OK((self)->m_listen_sockets) && EPMAP_OK((self)->m_udp_sockets))
 #endif
